@@ -1360,7 +1360,7 @@ class t2data(object):
 
     def read_meshmaker_minc(self, infile):
         """Reads MINC meshmaker data"""
-        line = infile.readline().strip()
+        line = padstring(infile.readline().rstrip('\n')) # (keeps columns)
         keyword = line[0: 5].strip()
         if keyword == 'PART':
             subsection = {}
